@@ -40,6 +40,9 @@ def index_in_range(ctx, p, fn, cont, idx, push_block, depth=0):
             if n[1] != '0':
                 return False, 'constant parent index %s' % n[1]
             continue   # index 0 exists: the root pushed by setup (C02.reroot) is never removed (C15.noremove)
+        am = P.argmin_info(ctx, one)
+        if am is not None and am['comp'] == am['idx_comp'] and am['cont'] == cont:
+            continue   # the index component of an arg-min over enumerate(iter(cont)): an existing index
         src = P.iter_source(one)
         if src is None:
             # enumerate element: field(unwrap(next(enumerate(iter(cont)))), '0')
@@ -262,6 +265,77 @@ def _acyclic(ctx, p, L, r_acyc, r_range):
         r_range.violations.append(Violation('C15', 'C15.range', b.path, 'rewire-node', whyj, loc=b.loc(L['block'])))
 
 
+def _walk_successors(ctx, p, b, fn, parent_fields):
+    """the lazy form of the walk:  successors(Some(start), |&i| CONT[i].<parent>).map(|i| CONT[i].<state>.clone()).collect()
+    (successors stops at the first None, i.e. at the parentless node).  Returns the list of problems, or None when the
+    function does not have this shape."""
+    sfs = {c['state_field'] for c in p['containers'].values()}
+    for bi, t in b.calls():
+        if t['func'].get('path') != 'std::iter::Iterator::collect' or not t['args']:
+            continue
+        src = fn.arg_terms(t, 0, bi)
+        maps = []
+        succ = None
+        for _ in range(6):
+            if len(src) != 1:
+                break
+            q = next(iter(src))
+            if q[0] == 'call' and q[1] == 'std::iter::Iterator::map' and len(q[2]) == 2:
+                maps.append(q[2][1])
+                src = q[2][0]
+                continue
+            if q[0] == 'call' and q[1].rsplit('::', 1)[-1] in ('rev', 'into_iter', 'inspect') and q[2]:
+                src = q[2][0]
+                continue
+            if q[0] == 'call' and q[1] == 'std::iter::successors' and len(q[2]) == 2:
+                succ = q
+            break
+        if succ is None:
+            continue
+        probs = []
+        seed, step = succ[2][0], succ[2][1]
+        if not (seed and all(x[0] == 'agg' and x[2] == 'Some' and x[3] and all(y[0] == 'param' for y in x[3][0][1]) for x in seed)):
+            probs.append('the walk does not start at the node index handed to path extraction: %s' % fmt_terms(seed)[:60])
+
+        def closure_ret(cl):
+            if len(cl) != 1 or next(iter(cl))[0] != 'closure':
+                return None, None
+            cb = ctx.core.body(next(iter(cl))[1])
+            if cb is None or cb.arg_count != 2:
+                return None, None
+            cf = ctx.fn(cb)
+            out = set()
+            for rb in cf.return_blocks():
+                out |= cf.local_terms(0, (rb, cf.nstmts(rb)))
+            return out, next(iter(cl))[2]
+
+        def node_read(n, field_names, caps):
+            # CONT[<closure argument>].<field> with CONT a node container of the planner reached through the captured self
+            if not (n[0] == 'field' and n[2] in field_names and len(n[1]) == 1):
+                return False
+            ix = next(iter(n[1]))
+            if ix[0] != 'index' or not (ix[2] and all(a[0] == 'param' and a[1] == 2 for a in ix[2])):
+                return False
+            for c in ix[1]:
+                if not (c[0] == 'field' and c[2] in p['containers'] and all(
+                        e[0] == 'field' and e[2].isdigit() and all(z[0] == 'param' and z[1] == 1 for z in e[1]) and
+                        int(e[2]) < len(caps) and all(w[0] == 'param' and w[1] == 1 for w in caps[int(e[2])]) for e in c[1])):
+                    return False
+            return True
+        r1, caps1 = closure_ret(step)
+        if r1 is None or not r1 or not all(node_read(n, parent_fields, caps1) for n in r1):
+            probs.append('the successor function is not the parent link of the current node: %s' % (fmt_terms(frozenset(r1 or ()))[:80]))
+        if len(maps) != 1:
+            probs.append('the walked indices are not mapped to node states by exactly one map (unrecognised shape)')
+        else:
+            r2, caps2 = closure_ret(maps[0])
+            ok2 = r2 is not None and r2 and all(n[0] == 'clone' and n[1] and all(node_read(m, sfs, caps2) for m in n[1]) for n in r2)
+            if not ok2:
+                probs.append('the states put on the path are not the states of the walked nodes: %s' % fmt_terms(frozenset(r2 or ()))[:80])
+        return probs
+    return None
+
+
 def _walk(ctx, p, r_walk):
     n = 0
     parent_fields = set()
@@ -272,6 +346,12 @@ def _walk(ctx, p, r_walk):
             continue
         fn = ctx.fn(b)
         n += 1
+        sp = _walk_successors(ctx, p, b, fn, parent_fields)
+        if sp is not None:
+            r_walk.inst('%s walks parent links to the parentless node (std::iter::successors over the parent link)' % b.path, ok=not sp, site=b.loc(0))
+            for o, pr in enumerate(sp):
+                r_walk.violations.append(Violation('C15', 'C15.walk', b.path, 'walk', pr, loc=b.loc(0), ordinal=o))
+            continue
         # every index used to read a node state in this function
         probs = []
         idx_sets = []
